@@ -28,13 +28,13 @@ Variable ch : Z -> Z -> Z -> Z.
 
 (* ---------- runs ---------- *)
 Lemma run_sim : forall ops disk h l,
-  Inv disk h -> (is_LWrite l = false -> pending h = []) ->
+  Inv disk h -> (l = LNone -> pending h = []) ->
   disc1 l ops = true ->
   supported (spec_results true (abs_content disk h) (abs_h disk h) ops) = true ->
   let '(d', h', rs) := irun ch disk h ops in
   let '(c', s', rs') := srun true (abs_content disk h) (abs_h disk h) ops in
   rs = rs' /\ c' = abs_content d' h' /\ s' = abs_h d' h' /\ Inv d' h' /\
-  (is_LWrite (disc1_end l ops) = false -> pending h' = []).
+  (disc1_end l ops = LNone -> pending h' = []).
 Proof.
   induction ops as [|o ops IH]; intros disk h l IV LP D SU.
   - cbn. split; [reflexivity|]. split; [reflexivity|]. split; [reflexivity|]. split; [exact IV|exact LP].
@@ -274,6 +274,12 @@ Proof.
   intros P. unfold abs_content, abs_pos. rewrite (abs_view_nopending disk h P). split; reflexivity.
 Qed.
 
+Lemma iflush_nopending disk h : pending h = [] -> iflush disk h = (disk, h).
+Proof.
+  destruct h as [o rb w rd wr ap cl tk]. unfold pending, iflush. cbn [wb].
+  destruct w as [[b c]|]; intros P; [|reflexivity]. subst b. reflexivity.
+Qed.
+
 Lemma eof_is_nil_lemma : forall disk h f,
   Inv disk h -> i_closed h = false -> i_rd h = true -> pending h = [] -> eof_fmt f = true ->
   (len disk <= abs_pos disk h -> snd (istep ch disk h (ORead [f])) = RVals [VNil]) /\
@@ -281,7 +287,7 @@ Lemma eof_is_nil_lemma : forall disk h f,
 Proof.
   intros disk h f IV C R P EF. destruct (abs_nopending disk h P) as (_ & AP). rewrite AP.
   pose proof IV as (I & _). pose proof I as (I0 & I1 & _).
-  unfold istep. rewrite C, R. cbn [negb ireads].
+  unfold istep. rewrite C, R. cbn [negb]. rewrite (iflush_nopending disk h P). cbn [ireads].
   destruct (iread1 ch disk h f) as [h1 r1] eqn:E1.
   pose proof (iread1_spec ch disk h f h1 r1 I E1) as SP.
   rewrite <- (rest_nil_iff disk (pos h) I0).
@@ -400,20 +406,6 @@ Lemma io_refines_cr_refuted_lemma :
     ~ refines_on ch_full m init ops.
 Proof.
   exists MR, [97;98;99;13;10;120], [ORead [FLine]].
-  do 3 (split; [reflexivity|]). intros H. unfold refines_on in H.
-  vm_compute in H. destruct H as (F & _). discriminate F.
-Qed.
-
-(* not a defect (ISO C leaves it undefined): a read straight after a buffered write does not see
-   the pending bytes, so the discipline hypothesis is needed *)
-Lemma io_refines_needs_discipline_lemma :
-  exists m init ops,
-    cr_free init = true /\ forallb op_cr_free ops = true /\
-    supported (spec_results false (fst (s_open m init)) (snd (s_open m init)) ops) = true /\
-    ~ refines_on ch_full m init ops.
-Proof.
-  exists MRp, [48;49;50;51;52;53;54;55;56;57],
-    [OSetvbuf VFull (Some 1024); OWrite [[65;66]]; ORead [FCount 2]].
   do 3 (split; [reflexivity|]). intros H. unfold refines_on in H.
   vm_compute in H. destruct H as (F & _). discriminate F.
 Qed.
